@@ -1,5 +1,30 @@
-import Hive.Base.Proto
-open Hive.Proto
+import Hive.Model.Events
+import Hive.Model.EventsIter
+import Hive.Model.EventsPromise
+import Hive.Model.EventsNotifier
+import Hive.Model.EventsNotifierRace
+import Hive.Spec.Events
+open Hive
 
-/-- Placeholder driver: answers `unimplemented` to every request. -/
-def main : IO Unit := run () (fun s _ => (s, "unimplemented"))
+/-- One sub-state per section; every case header resets all of them. -/
+structure DSt where
+  ev : Events.St
+  it : EventsIter.LSt
+  pr : Promise.St
+  vn : Notifier.St
+
+def dinit : DSt := { ev := Events.init, it := EventsIter.linit, pr := Promise.init, vn := Notifier.init }
+
+def dstep (s : DSt) (toks : List String) : DSt × String :=
+  match toks with
+  | "ev" :: r => let (x, o) := Events.stepLine s.ev r; ({ s with ev := x }, o)
+  | "it" :: r => let (x, o) := EventsIter.stepLine s.it r; ({ s with it := x }, o)
+  | "pr" :: r => let (x, o) := Promise.stepLine s.pr r; ({ s with pr := x }, o)
+  | "vn" :: r => let (x, o) := Notifier.stepLine s.vn r; ({ s with vn := x }, o)
+  | "vr" :: r => (s, NotifierRace.checkLine r)
+  | "mt" :: r => (s, EventsSpec.checkMT r)
+  | "pt" :: r => (s, EventsSpec.checkPT r)
+  | "hw" :: r => (s, EventsSpec.checkHW r)
+  | _ => (s, "bad-op")
+
+def main : IO Unit := Hive.Proto.run dinit dstep
